@@ -2,8 +2,19 @@
   Model of the code the `#[request]` / `#[response]` attribute macros of `ruma-macros` generate
   (`crates/ruma-macros/src/api/request/{outgoing,incoming}.rs`, `response/{outgoing,incoming}.rs`,
   the checks of `request.rs` / `response.rs`) and of the helpers that code calls in `ruma-common`
-  (`Metadata::make_endpoint_url`, `authorization_header`, `empty_request_body`), statement by
-  statement in the order of the generated code.
+  (`Metadata::make_endpoint_url`, `authorization_header`, `empty_request_body`), in the order of
+  the generated code.
+
+  Two things the generated code does are NOT statements of this model:
+    * `serde_html_form::to_string(request_query)?` can fail (a query field whose `Serialize` writes
+      something a query string cannot hold); `requestQueryString` is total. A value is given here by
+      its wire forms — for a query field the list of strings the serializer wrote —, so a value
+      whose query serialisation fails has no wire form and is not a `ReqVal` at all: that error
+      path is outside the model, not contradicted by it;
+    * a body field with `#[serde(flatten)]` (`ReqKind.flattenBody` / `RespKind.flattenBody`): the
+      macro's checks see it (`macroAccepts`), the conversions below do not write or read it.
+      Descriptors with such a field are outside the model (`inModel = false`), and every theorem
+      about the conversions carries `inModel` as a hypothesis.
 
   An endpoint is described the way the macro sees it: an ordered list of fields, each with the
   kind the `#[ruma_api(..)]` attribute gives it. What the macro cannot see — the field's Rust type
@@ -236,6 +247,10 @@ inductive ReqKind where
   | query (c : Codec (List Str))
   /-- `#[ruma_api(query_all)]`: the whole query string is this field -/
   | queryAll (c : Codec (List (Str × Str)))
+  /-- no `ruma_api` attribute and `#[serde(flatten)]`: the members of the field's own JSON object
+  stand directly in the body object. For the macro it is a `Body` field; the conversions of this
+  model do not handle it (`ReqDesc.inModel`). -/
+  | flattenBody
 
 structure ReqField where
   /-- the serde name: JSON key, query key, path placeholder -/
@@ -275,6 +290,8 @@ def ReqField.asNewtype (f : ReqField) : Option (Codec JVal) :=
   match f.kind with | .newtypeBody c => some c | _ => none
 def ReqField.isRaw (f : ReqField) : Bool :=
   match f.kind with | .rawBody => true | _ => false
+def ReqField.isFlatten (f : ReqField) : Bool :=
+  match f.kind with | .flattenBody => true | _ => false
 
 def ReqDesc.pathFields (d : ReqDesc) := d.fields.filterMap ReqField.asPath
 def ReqDesc.queryFields (d : ReqDesc) := d.fields.filterMap ReqField.asQuery
@@ -283,6 +300,7 @@ def ReqDesc.headerFields (d : ReqDesc) := d.fields.filterMap ReqField.asHeader
 def ReqDesc.bodyFields (d : ReqDesc) := d.fields.filterMap ReqField.asBody
 def ReqDesc.newtypeFields (d : ReqDesc) := d.fields.filterMap ReqField.asNewtype
 def ReqDesc.rawFields (d : ReqDesc) := d.fields.filter ReqField.isRaw
+def ReqDesc.flattenFields (d : ReqDesc) := d.fields.filter ReqField.isFlatten
 
 /-- `has_body_fields()`: any `Body` or `NewtypeBody` field. -/
 def ReqDesc.hasBodyFields (d : ReqDesc) : Bool := !d.bodyFields.isEmpty || !d.newtypeFields.isEmpty
@@ -294,6 +312,22 @@ def ReqDesc.hasQueryFields (d : ReqDesc) : Bool := !d.queryFields.isEmpty
 def ReqDesc.hasQueryAll (d : ReqDesc) : Bool := !d.queryAllFields.isEmpty
 def ReqDesc.hasPathFields (d : ReqDesc) : Bool := !d.pathFields.isEmpty
 
+/-- Some body field carries `#[serde(flatten)]`. -/
+def ReqDesc.hasFlatten (d : ReqDesc) : Bool := !d.flattenFields.isEmpty
+
+/-- The conversions below are a model of the generated code for this description: no flattened
+body field. (A description with one is accepted by the macro — see `macroAccepts` — but written
+and read by serde's buffered flatten visitor, which is not modelled.) -/
+def ReqDesc.inModel (d : ReqDesc) : Bool := !d.hasFlatten
+
+/-- The two places where `Request::check` looks at flattened body fields (they are `Body` fields
+for it): they count for "both a newtype body field and regular body fields", and a *single* body
+field that is flattened is refused ("Use `#[ruma_api(body)]` to represent the JSON body as a single
+field"). -/
+def ReqDesc.flattenOk (d : ReqDesc) : Bool :=
+  !(decide (d.newtypeFields.length + d.rawFields.length = 1) && d.hasFlatten)
+  && !(d.bodyFields.isEmpty && decide (d.flattenFields.length = 1))
+
 /-- `Request::check` (`request.rs`): what the macro refuses to expand. -/
 def ReqDesc.macroAccepts (d : ReqDesc) : Bool :=
   -- "Can't have more than one newtype body field" (NewtypeBody and RawBody counted together)
@@ -304,6 +338,8 @@ def ReqDesc.macroAccepts (d : ReqDesc) : Bool :=
   && !(decide (d.newtypeFields.length + d.rawFields.length = 1) && !d.bodyFields.isEmpty)
   -- "Can't have both a query_all field and regular query fields"
   && !(d.hasQueryAll && d.hasQueryFields)
+  -- flattened body fields: counted as body fields; refused when it is the only one
+  && d.flattenOk
 
 /-- The two `#[test]`s the macro generates next to every request (`path_parameters`,
 `request_is_not_get`), and Rust's own rule that the fields of a struct have distinct names. -/
@@ -311,7 +347,7 @@ def ReqDesc.testsPass (d : ReqDesc) : Bool :=
   (match refPath d.history with
    | some r => pathArgNames r == d.fields.filterMap (fun f => f.asPath.map (fun _ => f.name))
    | none => false)
-  && !((d.hasBodyFields || d.hasRawBody) && d.method == mGET)
+  && !((d.hasBodyFields || d.hasRawBody || d.hasFlatten) && d.method == mGET)
   && decide (d.fields.map (·.name)).Nodup
 
 /-! ### Values -/
@@ -639,6 +675,8 @@ inductive RespKind where
   | header (name : Str) (optional : Bool) (c : Codec Str)
   | newtypeBody (c : Codec JVal)
   | rawBody
+  /-- a body field with `#[serde(flatten)]`: see `ReqKind.flattenBody` -/
+  | flattenBody
 
 structure RespField where
   name : Str
@@ -660,19 +698,29 @@ def RespField.asNewtype (f : RespField) : Option (Codec JVal) :=
   match f.kind with | .newtypeBody c => some c | _ => none
 def RespField.isRaw (f : RespField) : Bool :=
   match f.kind with | .rawBody => true | _ => false
+def RespField.isFlatten (f : RespField) : Bool :=
+  match f.kind with | .flattenBody => true | _ => false
 
 def RespDesc.headerFields (d : RespDesc) := d.fields.filterMap RespField.asHeader
 def RespDesc.bodyFields (d : RespDesc) := d.fields.filterMap RespField.asBody
 def RespDesc.newtypeFields (d : RespDesc) := d.fields.filterMap RespField.asNewtype
 def RespDesc.rawFields (d : RespDesc) := d.fields.filter RespField.isRaw
+def RespDesc.flattenFields (d : RespDesc) := d.fields.filter RespField.isFlatten
+def RespDesc.hasFlatten (d : RespDesc) : Bool := !d.flattenFields.isEmpty
+/-- No flattened body field: the conversions below model the generated code (see
+`ReqDesc.inModel`). -/
+def RespDesc.inModel (d : RespDesc) : Bool := !d.hasFlatten
 def RespDesc.hasBodyFields (d : RespDesc) : Bool := !d.bodyFields.isEmpty || !d.newtypeFields.isEmpty
 def RespDesc.hasNewtypeBody (d : RespDesc) : Bool := !d.newtypeFields.isEmpty
 def RespDesc.hasRawBody (d : RespDesc) : Bool := !d.rawFields.isEmpty
 
-/-- `Response::check`. -/
+/-- `Response::check`. The last two clauses are its treatment of flattened body fields (counted as
+body fields; a single body field that is flattened is refused). -/
 def RespDesc.macroAccepts (d : RespDesc) : Bool :=
   decide (d.newtypeFields.length + d.rawFields.length ≤ 1)
   && !(decide (d.newtypeFields.length + d.rawFields.length = 1) && !d.bodyFields.isEmpty)
+  && !(decide (d.newtypeFields.length + d.rawFields.length = 1) && d.hasFlatten)
+  && !(d.bodyFields.isEmpty && decide (d.flattenFields.length = 1))
 
 /-- The whole-body codec applies: a newtype body, or hand-written body serde. With
 `manual_body_serde` and no body field at all the receiving side never reads the body; that
@@ -797,6 +845,23 @@ def tryFromHttpResponse (J : JsonCodec) (d : RespDesc) (r : HttpResponse) : From
         .ok ⟨headerVars, bodyVars, wholeVars, if d.hasRawBody then [r.body] else []⟩
   else .server
 
+/-! ## The shape of finding G17 (optional header field the generated code sets itself)
+
+Computed from the description alone: the `Option` header fields whose header the generated code
+writes by itself — `Content-Type` whenever there is a body, `Authorization` whenever the
+authentication scheme can send a token (every scheme but `ServerSignatures`, since
+`SendAccessToken::Always` sends one even for `AuthScheme::None`). When such a field holds `None`,
+the receiving side reads `Some(..)`. -/
+
+def ReqDesc.g17Fields (d : ReqDesc) : List Str :=
+  (d.headerFields.filter (fun f =>
+    f.optional && ((f.header = contentType && (d.hasRawBody || d.hasBodyFields))
+      || (f.header = authorization && d.auth != .serverSignatures)))).map (·.header)
+
+/-- The response builder always sets `Content-Type: application/json` first. -/
+def RespDesc.g17Fields (d : RespDesc) : List Str :=
+  (d.headerFields.filter (fun f => f.optional && f.header = contentType)).map (·.header)
+
 /-! ## Field types of the check's synthetic endpoints
 
 The codecs of the Rust types the synthetic endpoints of `harness/h-c16` use, i.e. what serde, std
@@ -919,6 +984,18 @@ def mWrap : Codec JVal :=
       | some (some x) => some (.obj [(bs "wrap", x)])
       | _ => none
     | _ => none⟩
+
+/-! ### The identity codecs
+
+For a REAL endpoint the field types are whatever the crate declares; the check instantiates its
+extracted description with the codecs that take a wire form as it is. On a wire form that *is* the
+wire form of a value (`Codec.Canon`, the hypothesis of the round-trip theorems) every codec acts
+like these. -/
+
+def anyQ : Codec (List Str) := ⟨some⟩
+def anyQA : Codec (List (Str × Str)) := ⟨some⟩
+def anyB : Codec (Option JVal) := ⟨some⟩
+def anyJ : Codec JVal := ⟨some⟩
 
 end Ty
 
